@@ -1,0 +1,81 @@
+//go:build verif
+
+package slog
+
+// Contracts for the escaper shared by properties C04 (JSON), C05 (logfmt) and C06 (no raw control or
+// escape bytes from values). Read by /verif/bin/lvc; never compiled into a normal build.
+//
+// A "segment" is what appendEscapedRune appends for one rune. Every segment
+//   - contains no control byte (nothing below 0x20, no 0x7f): a value can neither split the line nor
+//     smuggle a terminal escape sequence,
+//   - contains the quote character only as the second byte of the two-byte segment \" ,
+//   - contains a backslash only as its first byte (or as the second byte of the segment \\).
+// The quoted string is the opening quote, the concatenation of such segments, and the closing quote.
+
+//@ func appendEscapedRune
+//@   props C02 C04 C05 C06
+//@   auto
+//@   requires quote == 34
+//@   ensures [C05.seg-grow] grown(result, buf) && len(result) > len(buf) && forall(k, 0, len(buf), result[k] == old(buf[k]))
+//@   ensures [C05.seg-nocontrol] forall(k, len(buf), len(result), result[k] >= 32 && result[k] != 127)
+//@   ensures [C05.seg-quote] forall(k, len(buf), len(result), implies(result[k] == 34, k == len(buf)+1 && result[len(buf)] == 92))
+//@   ensures [C05.seg-backslash] forall(k, len(buf), len(result), implies(result[k] == 92, k == len(buf) || (k == len(buf)+1 && result[len(buf)] == 92)))
+//@   ensures [C04.json-escape] implies(result[len(buf)] == 92, result[len(buf)+1] == 34 || result[len(buf)+1] == 92 || result[len(buf)+1] == 98 || result[len(buf)+1] == 102 || result[len(buf)+1] == 110 || result[len(buf)+1] == 114 || result[len(buf)+1] == 116 || result[len(buf)+1] == 117)
+//@   ensures [C05.seg-escaped] implies(r == 34 || r == 92, len(result) == len(buf) + 2 && result[len(buf)] == 92 && result[len(buf)+1] == r)
+//@   loop 1 invariant grown(buf, old(buf)) && len(buf) >= old(len(buf)) + 2 && forall(k, 0, old(len(buf)), buf[k] == old(buf[k])) && buf[old(len(buf))] == 92 && buf[old(len(buf))+1] == 117 && forall(k, old(len(buf))+2, len(buf), (buf[k] >= 48 && buf[k] <= 57) || (buf[k] >= 97 && buf[k] <= 102)) && s <= 12
+//@   loop 2 invariant grown(buf, old(buf)) && len(buf) >= old(len(buf)) + 2 && forall(k, 0, old(len(buf)), buf[k] == old(buf[k])) && buf[old(len(buf))] == 92 && buf[old(len(buf))+1] == 85 && forall(k, old(len(buf))+2, len(buf), (buf[k] >= 48 && buf[k] <= 57) || (buf[k] >= 97 && buf[k] <= 102)) && s <= 28
+
+// the quoted string: opening quote, one segment per rune (or \xHH for a byte that is not valid UTF-8), closing quote
+//@ func appendQuotedWith
+//@   props C02 C04 C05 C06
+//@   auto
+//@   requires quote == 34
+//@   ensures [C05.q-grow] grown(result, buf) && len(result) >= len(buf) + 2 && forall(k, 0, len(buf), result[k] == old(buf[k]))
+//@   ensures [C05.q-delims] result[len(buf)] == 34 && result[len(result)-1] == 34
+//@   ensures [C05.q-nocontrol] forall(k, len(buf), len(result), result[k] >= 32 && result[k] != 127)
+//@   ensures [C05.q-quote] forall(k, len(buf)+1, len(result)-1, implies(result[k] == 34, result[k-1] == 92))
+//@   loop 1 invariant [C05.q-loop] grown(buf, old(buf)) && len(buf) >= old(len(buf)) + 1 && forall(k, 0, old(len(buf)), buf[k] == old(buf[k])) && buf[old(len(buf))] == 34 && forall(k, old(len(buf)), len(buf), buf[k] >= 32 && buf[k] != 127) && forall(k, old(len(buf))+1, len(buf), implies(buf[k] == 34, buf[k-1] == 92)) && 0 <= width
+
+// ---- where the escaper is applied: string values in the two machine-readable formats, and the message
+
+//@ func (*PrintCtx).appendQuotedString
+//@   props C02 C04 C05 C06
+//@   auto
+//@   ensures [C05.quoted] grown(s.buf, old(s.buf)) && len(s.buf) >= old(len(s.buf)) + 2 && forall(k, 0, old(len(s.buf)), s.buf[k] == old(s.buf[k])) && s.buf[old(len(s.buf))] == 34 && s.buf[len(s.buf)-1] == 34 && forall(k, old(len(s.buf)), len(s.buf), s.buf[k] >= 32 && s.buf[k] != 127) && forall(k, old(len(s.buf))+1, len(s.buf)-1, implies(s.buf[k] == 34, s.buf[k-1] == 92))
+
+//@ func (*PrintCtx).pcAppendQuotedStringValue
+//@   props C02 C04 C05 C06
+//@   auto
+//@   ensures [C05.quoted] grown(s.buf, old(s.buf)) && len(s.buf) >= old(len(s.buf)) + 2 && forall(k, 0, old(len(s.buf)), s.buf[k] == old(s.buf[k])) && s.buf[old(len(s.buf))] == 34 && s.buf[len(s.buf)-1] == 34 && forall(k, old(len(s.buf)), len(s.buf), s.buf[k] >= 32 && s.buf[k] != 127) && forall(k, old(len(s.buf))+1, len(s.buf)-1, implies(s.buf[k] == 34, s.buf[k-1] == 92))
+
+//@ func (*PrintCtx).pcQuoteValue
+//@   props C02 C04 C05 C06
+//@   auto
+//@   ensures [C05.quoted] grown(s.buf, old(s.buf)) && len(s.buf) >= old(len(s.buf)) + 2 && forall(k, 0, old(len(s.buf)), s.buf[k] == old(s.buf[k])) && s.buf[old(len(s.buf))] == 34 && s.buf[len(s.buf)-1] == 34 && forall(k, old(len(s.buf)), len(s.buf), s.buf[k] >= 32 && s.buf[k] != 127) && forall(k, old(len(s.buf))+1, len(s.buf)-1, implies(s.buf[k] == 34, s.buf[k-1] == 92))
+
+// string values: quoted and escaped in logfmt and JSON. In colored mode they are written as they are
+// (KNOWN FINDING for C06: raw control and escape bytes of a value reach the terminal).
+//@ func (*PrintCtx).pcTryQuoteValue
+//@   props C02 C04 C05 C06
+//@   auto
+//@   ensures [C05.value-quoted] implies(s.noColor, grown(s.buf, old(s.buf)) && len(s.buf) >= old(len(s.buf)) + 2 && forall(k, 0, old(len(s.buf)), s.buf[k] == old(s.buf[k])) && s.buf[old(len(s.buf))] == 34 && s.buf[len(s.buf)-1] == 34 && forall(k, old(len(s.buf)), len(s.buf), s.buf[k] >= 32 && s.buf[k] != 127) && forall(k, old(len(s.buf))+1, len(s.buf)-1, implies(s.buf[k] == 34, s.buf[k-1] == 92)))
+//@   ensures [C06.value-clean] implies(!s.noColor, forall(k, old(len(s.buf)), len(s.buf), s.buf[k] >= 32 && s.buf[k] != 127))
+
+// keys are written as they are in every format (KNOWN FINDINGS for C04 and C05: a key can break the JSON
+// string it is put in, or split a logfmt pair / line).
+//@ func (*PrintCtx).pcAppendStringKey
+//@   props C02 C04 C05
+//@   auto
+//@   ensures [C05.key-clean] implies(!s.jsonMode && s.noColor, forall(k, old(len(s.buf)), len(s.buf), s.buf[k] > 32 && s.buf[k] != 127 && s.buf[k] != 34 && s.buf[k] != 61))
+//@   ensures [C04.key-clean] implies(s.jsonMode, len(s.buf) >= old(len(s.buf)) + 2 && forall(k, old(len(s.buf))+1, len(s.buf)-1, s.buf[k] >= 32 && s.buf[k] != 127 && s.buf[k] != 34 && s.buf[k] != 92))
+
+//@ func (*PrintCtx).pcAppendStringKeyPrefixed
+//@   props C02 C04 C05
+//@   auto
+
+// name=value with the value quoted: used for the message, the level name and (logfmt) the logger name
+//@ func (*PrintCtx).AddString
+//@   props C02 C04 C05
+//@   auto
+//@   at call (*PrintCtx).pcAppendStringKey assert [C05.field-key] callee.s == s && same(callee.str, name)
+//@   at call (*PrintCtx).pcAppendQuotedStringValue assert [C05.field-value] callee.s == s && same(callee.str, value)
